@@ -322,13 +322,20 @@ func ruleRollback(w *World, r *Report, rule string) {
 	info := fi.Pkg.TypesInfo
 	// exists variables from `x, exists := g.nodes[k]` and creation sites
 	type lookup struct {
-		key string
+		key     string
+		existed bool // the variable is true when the node existed before (false: true when it was created)
 	}
 	existsOf := map[types.Object]lookup{}
 	ast.Inspect(fi.Decl.Body, func(x ast.Node) bool {
 		if as, ok := x.(*ast.AssignStmt); ok && len(as.Lhs) == 2 && len(as.Rhs) == 1 {
 			if ix, ok := unparen(as.Rhs[0]).(*ast.IndexExpr); ok && fieldOf(info, ix.X) == g.nodes {
-				existsOf[objOf(info, as.Lhs[1])] = lookup{exprStr(ix.Index)}
+				existsOf[objOf(info, as.Lhs[1])] = lookup{exprStr(ix.Index), true}
+			}
+			// node, created := g.ensureNode(key, …): a lookup-or-create helper
+			if c, ok := unparen(as.Rhs[0]).(*ast.CallExpr); ok {
+				if idx, existed, ok := lookupOrCreate(w, g, callee(info, c)); ok && idx < len(c.Args) {
+					existsOf[objOf(info, as.Lhs[1])] = lookup{exprStr(c.Args[idx]), existed}
+				}
 			}
 		}
 		return true
@@ -345,7 +352,7 @@ func ruleRollback(w *World, r *Report, rule string) {
 			c, neg = unparen(u.X), true
 		}
 		if lk, ok := existsOf[objOf(info, c)]; ok {
-			existed := (i == 0) != neg
+			existed := ((i == 0) != neg) == lk.existed
 			if existed {
 				gen = append(gen, "existed:"+lk.key)
 				kill = append(kill, "new:"+lk.key)
@@ -455,54 +462,59 @@ func ruleSearchComplete(w *World, r *Report, rule string) {
 	info := dc.Pkg.TypesInfo
 	var dfs *types.Func
 	found := false
-	ast.Inspect(dc.Decl.Body, func(x ast.Node) bool {
-		rs, ok := x.(*ast.RangeStmt)
-		if !ok || fieldOf(info, rs.X) != g.nodes {
-			return true
-		}
-		for _, c := range callsIn(rs.Body, false) {
-			cal := callee(info, c)
-			if cal == nil || w.Decls[cal] == nil || len(c.Args) != 1 || rs.Key == nil || objOf(info, c.Args[0]) != objOf(info, rs.Key) {
+	_ = info
+	// the loop over all nodes may live in DetectCycles or in a private helper of it (scanForCycles)
+	for _, host := range w.Within(dc, 2) {
+		hinfo := host.Pkg.TypesInfo
+		for _, il := range iterLoopsIn(hinfo, host.Decl.Body) {
+			if fieldOf(hinfo, il.Coll) != g.nodes || il.Index == nil {
 				continue
 			}
-			found = true
-			dfs = cal
-			// guards around the call: only tests mentioning Visited/visited
-			bad := ""
-			var guardExprs []ast.Expr
-			var walk func(stmts []ast.Stmt, guards []string)
-			walk = func(stmts []ast.Stmt, guards []string) {
-				for _, st := range stmts {
-					if ifs, ok := st.(*ast.IfStmt); ok {
-						if isInside(c, ifs.Body) {
-							gs := append(guards, exprStr(ifs.Cond))
-							guardExprs = append(guardExprs, ifs.Cond)
-							walk(ifs.Body.List, gs)
-							continue
-						}
-						if ifs.Init != nil && isInside(c, ifs.Init) {
-							for _, gd := range guardExprs {
-								if !isVisitedTest(info, gd) {
-									bad = exprStr(gd)
-								}
-							}
-						}
+			for _, c := range callsIn(il.Body, false) {
+				cal := callee(hinfo, c)
+				if cal == nil || w.Decls[cal] == nil || len(c.Args) != 1 || objOf(hinfo, c.Args[0]) != il.Index {
+					continue
+				}
+				if !isCycleSearch(w, w.Decls[cal]) {
+					continue
+				}
+				found = true
+				dfs = cal
+				bad := ""
+				// conditions the call (and every return) is control dependent on, inside one iteration
+				conds, _ := controllingConds(w, host, il.Body, c.Pos())
+				for _, cd := range conds {
+					if !isVisitedTest(hinfo, cd) {
+						bad = exprStr(cd)
 					}
 				}
+				inspectNoLit(il.Body, func(m ast.Node) bool {
+					switch st := m.(type) {
+					case *ast.BranchStmt:
+						if st.Tok == token.BREAK || st.Tok == token.GOTO {
+							bad = st.Tok.String() + " in the loop over all nodes"
+						}
+					case *ast.ReturnStmt:
+						rc, _ := controllingConds(w, host, il.Body, st.Pos())
+						okRet := false
+						isErr := func(e ast.Expr) bool { o := objOf(hinfo, e); return o != nil && isErrorType(o.Type()) }
+						for _, cd := range rc {
+							if isNilTestOf(hinfo, cd, isErr, false) || isNilTestOf(hinfo, cd, isErr, true) {
+								okRet = true
+							}
+						}
+						if !okRet {
+							bad = "a return that does not depend on the search having found a cycle"
+						}
+					}
+					return true
+				})
+				r.Check(bad == "", rule, dc.Name()+"#search-from-every-node", il.Stmt.Pos(), true,
+					"a search is started from every node of the graph; only the already-visited test may skip one",
+					"the loop over all nodes skips nodes on the condition "+bad+": cycles reachable only from those nodes are not found")
 			}
-			walk(rs.Body.List, nil)
-			inspectNoLit(rs.Body, func(m ast.Node) bool {
-				if b, ok := m.(*ast.BranchStmt); ok && (b.Tok == token.BREAK || b.Tok == token.CONTINUE) {
-					bad = b.Tok.String() + " in the loop over all nodes"
-				}
-				return true
-			})
-			r.Check(bad == "", rule, dc.Name()+"#search-from-every-node", rs.Pos(), true,
-				"a search is started from every node of the graph; only the already-visited test may skip one",
-				"the loop over all nodes skips nodes on the condition "+bad+": cycles reachable only from those nodes are not found")
 		}
-		return true
-	})
+	}
 	if !found {
 		r.Fail(rule, dc.Name()+"#search-from-every-node", dc.Decl.Pos(), "DetectCycles has no loop over all nodes that starts a search from each")
 		return
@@ -603,7 +615,8 @@ func isVisitedTest(info *types.Info, cond ast.Expr) bool {
 		case *ast.IndexExpr:
 			if tv, has := info.Types[x.X]; has {
 				if m, isMap := tv.Type.Underlying().(*types.Map); isMap {
-					if b, isB := m.Elem().Underlying().(*types.Basic); isB && b.Info()&types.IsBoolean != 0 {
+					// a local map keyed by node key: traversal bookkeeping (visited flags or a progress state)
+					if _, isB := m.Elem().Underlying().(*types.Basic); isB && isNamedType(m.Key(), modPath+"/internal/graph", "NodeKey") {
 						if _, isLocal := objOf(info, x.X).(*types.Var); isLocal && fieldOf(info, x.X) == nil {
 							ok = true
 							return false
@@ -653,3 +666,107 @@ func indexFold(s, sub string) int {
 	return -1
 }
 
+// lookupOrCreate recognises a private helper `func (g) h(key NodeKey, …) (*Node, bool)`
+// that looks key up in the node table, creates the node when it is missing, and
+// reports through its bool result whether the node existed (existed=true) or was
+// created (existed=false). keyIdx is the index of the key parameter.
+func lookupOrCreate(w *World, g *graphRoles, cal *types.Func) (keyIdx int, existed bool, ok bool) {
+	if cal == nil || cal.Exported() {
+		return 0, false, false
+	}
+	t := w.Decls[cal]
+	if t == nil || t.Pkg != w.Graph {
+		return 0, false, false
+	}
+	sig := cal.Type().(*types.Signature)
+	if sig.Results().Len() != 2 {
+		return 0, false, false
+	}
+	if b, isB := sig.Results().At(1).Type().Underlying().(*types.Basic); !isB || b.Info()&types.IsBoolean == 0 {
+		return 0, false, false
+	}
+	info := t.Pkg.TypesInfo
+	var params []types.Object
+	for _, f := range t.Decl.Type.Params.List {
+		for _, nm := range f.Names {
+			params = append(params, info.Defs[nm])
+		}
+	}
+	var existsVar types.Object
+	keyIdx = -1
+	ast.Inspect(t.Decl.Body, func(x ast.Node) bool {
+		if as, isAs := x.(*ast.AssignStmt); isAs && len(as.Lhs) == 2 && len(as.Rhs) == 1 {
+			if ix, isIx := unparen(as.Rhs[0]).(*ast.IndexExpr); isIx && fieldOf(info, ix.X) == g.nodes {
+				for i, p := range params {
+					if objOf(info, ix.Index) == p {
+						keyIdx, existsVar = i, objOf(info, as.Lhs[1])
+					}
+				}
+			}
+		}
+		return true
+	})
+	if keyIdx < 0 || existsVar == nil {
+		return 0, false, false
+	}
+	// every return hands back exists or !exists
+	pol, n := 0, 0
+	consistent := true
+	ast.Inspect(t.Decl.Body, func(x ast.Node) bool {
+		if _, isLit := x.(*ast.FuncLit); isLit {
+			return false
+		}
+		ret, isR := x.(*ast.ReturnStmt)
+		if !isR {
+			return true
+		}
+		n++
+		if len(ret.Results) != 2 {
+			consistent = false
+			return true
+		}
+		e := unparen(ret.Results[1])
+		p := 1
+		if u, isU := e.(*ast.UnaryExpr); isU && u.Op == token.NOT {
+			e, p = unparen(u.X), -1
+		}
+		if objOf(info, e) != existsVar || (pol != 0 && pol != p) {
+			consistent = false
+		}
+		pol = p
+		return true
+	})
+	if !consistent || n == 0 {
+		return 0, false, false
+	}
+	return keyIdx, pol == 1, true
+}
+
+// controllingConds: the branch conditions that have a fixed outcome on every
+// path from the beginning of body to the node containing pos (the conditions the
+// node is control dependent on within body), with the outcome required.
+func controllingConds(w *World, fi *FuncInfo, body *ast.BlockStmt, pos token.Pos) ([]ast.Expr, []bool) {
+	fl := NewFlow(w, fi.Pkg, body, fi.Name()+"#body")
+	byPos := map[string]ast.Expr{}
+	sol := fl.Solve(Spec{Must: true, Edge: func(b *cfg.Block, i int, cond ast.Expr, in Facts) (gen, kill []string) {
+		if cond == nil {
+			return
+		}
+		k := fmt.Sprintf("c:%d:%d", cond.Pos(), i)
+		byPos[k] = cond
+		return []string{k}, nil
+	}})
+	nd := fl.NodeContaining(pos)
+	if nd == nil {
+		return nil, nil
+	}
+	var conds []ast.Expr
+	var want []bool
+	for _, k := range sol.Before[nd].Keys() {
+		if c, ok := byPos[k]; ok {
+			conds = append(conds, c)
+			want = append(want, k[len(k)-1] == '0')
+		}
+	}
+	return conds, want
+}
